@@ -63,7 +63,7 @@ ADDED = {
     "C08": "; composed queuing sinks (a queue feeding a queue, a handler reporting through a queue); miri_time: a wrapped sink that stalls for a virtual hour with metrics accepted behind it - age is no reason to skip a metric",
     "C09": "; miri_time: a backlog behind a sink that needs ten virtual minutes per metric is handed over completely after the last drop, drop itself takes no virtual time, release within a virtual day; miri_queue: last drop at the moment of the last delivery (weak-memory emulation)",
     "C10": "; miri_time: emit keeps answering by queue room alone while the wrapped sink is inside one call for a virtual hour; unbounded queues with backlogs of 70 000 and 2^20 + 60 000 behind the blocked sink accept everything; emit called on another queuing sink's thread (queue -> queue, handler -> queue) is answered like any caller's; a wrapped sink and handler using 100 KiB of stack; a driver killed by a signal counts",
-    "C11": "; a refusal with room in the queue after a panic of the wrapped sink counts here too ('keeps accepting')",
+    "C11": "; a queuing sink built and used by a destructor during unwinding reports panics() == 0; miri_time: hours of idling and an emit afterwards leave panics() at 0; a refusal with room in the queue after a panic of the wrapped sink counts here too ('keeps accepting')",
     "C12": "; every other run ends with the drop alone (no final flush)",
     "C13": "; socket file names with special first bytes (@ - ~ # % : blank) as bare relative paths, buffered Unix sinks addressed relatively; address lists whose first entry is of the other family than the socket (first address is the destination, the second stays silent)",
     "C16": "; every fourth history runs against a wrapped sink whose flush() fails with an error of its own (only a caller's flush may see it: a handler call carrying it is handler-without-failure)",
@@ -324,7 +324,7 @@ def q_jobs(bindir, prop, tier, seed, seq_enum=True, caps="unbounded,1,2,3", drop
     if blocked:
         jobs += shards(bindir, "queue_conc", prop + "-blocked", seed, NCPU, base + ["--mode", "blocked", "--cases", "60" if quick else "4000"] + ([] if quick else ["--big"]), 3400,
                        per_shard_args=lambda i: ["--huge-first"] if i == 0 or (not quick and i < 4) else [])
-    if prop in ("C09", "C08", "C10"):
+    if prop in ("C09", "C08", "C10", "C11"):
         # a backlog behind a sink that takes ten (virtual) minutes per metric, hour-long idle periods: Miri's virtual clock
         jobs.append(miri_time_job(prop, seed, 4 if quick else 64, 1500 if quick else 7200))
     # Miri: compact histories under a random preemptive scheduler, hooks off; virtual-time quiescence
